@@ -7,6 +7,9 @@
 //! Values: integers as their value (I24.. built with new_unchecked, read with inner()), floats as bit patterns
 //! (NaN canonicalised on output).  List arguments of an op are separated by `|`.
 //!   sadd v a | smul v g | ssig v | sflt v | seq                      Sample::{add_amp, mul_amp, to_signed_sample, to_float_sample, EQUILIBRIUM}
+//!   ssigf v | sfltf v                                                <S::Signed as Sample>::from_sample(v), <S::Float as Sample>::from_sample(v): the
+//!                                                                    other spelling of the same two conversions (same expected value)
+//!   sid                                                              <S as Sample>::IDENTITY (bits), also compared with <S::Float as FloatSample>::IDENTITY
 //!   map fr|outs       Frame::map with an FnMut that records its argument and returns outs[#calls]   -> 0 result.. log..
 //!   zip fr|other|outs Frame::zip_map (other: frame of the Signed type), same closure                  -> 0 result.. logA.. logB..
 //!   fromfn outs       Frame::from_fn with an FnMut that records the index and returns outs[idx]       -> 0 result.. idxlog..
@@ -18,11 +21,17 @@
 //!                        steps `code a b`: 0 next, 1 nth(a), 2 by_ref().skip(a).next(), 3 by_ref().step_by(a).take(b).collect(), 4 by_ref().count(),
 //!                        5 by_ref().last(), 6 len()+size_hint(), 7 next_back(), 8 by_ref().rev().take(a).collect() (7, 8: kinds 1, 2 only)
 //!                        -> 0 then per step: Option `1 v`|`0`, list `len items..`, count `n`, len `len lo hi|-1`
+//!                        9 clone: `let mut c = it.clone()`, then c.next() and c.len() (`it` itself is not advanced; kinds 0, 1: ChannelsMut is not Clone)
+//!   nch                   <F as Frame>::CHANNELS                                                                         -> 0 n
+//!   chmut fr|i|v          if let Some(r) = fr.channel_mut(i) { *r = v }                                                  -> 0 flag frame..
+//!   chun fr|i             unsafe { *fr.channel_unchecked(i) }          (only generated with i < N)                       -> 0 v
+//!   chunmut fr|i|v        unsafe { *fr.channel_unchecked_mut(i) = v }  (only generated with i < N)                       -> 0 frame..
+//!   chw fr|news|dir       for (r, v) in fr.channels_mut()[.rev() if dir = 1].zip(news) { *r = v }                        -> 0 frame..
 //!   bare only: mapba fr|outs (bare -> [S; 1]), mapab fr|outs ([S; 1] -> bare), addfa fr|other (other: [Signed; 1])
 //! A panic inside an op is observed as `8 k`: 1 = rustc overflow check, 2 = index, 4 = `expect("arithmetic operation
 //! overflowed")` of the I24/I48 operators, 9 = other.
 use dasp_frame::Frame;
-use dasp_sample::{Sample, I24, I48, U24, U48};
+use dasp_sample::{FloatSample, Sample, I24, I48, U24, U48};
 use dasp_verif_harness::serve;
 use std::panic::{self, AssertUnwindSafe};
 
@@ -96,7 +105,7 @@ impl<T: Copy> Iterator for CountIt<T> {
 
 /// iterator-adaptor script on one iterator instance; $back = true adds the DoubleEndedIterator steps
 macro_rules! run_script {
-    ($it:expr, $script:expr, $val:expr, $back:tt) => {{
+    ($it:expr, $script:expr, $val:expr, $back:tt, $clone:tt) => {{
         let mut it = $it;
         let val = $val;
         let mut o: Vec<i128> = Vec::new();
@@ -110,11 +119,20 @@ macro_rules! run_script {
                 4 => o.push(it.by_ref().count() as i128),
                 5 => match it.by_ref().last() { Some(s) => { o.push(1); o.push(val(s)); } None => o.push(0) },
                 6 => { let (lo, hi) = it.size_hint(); o.push(it.len() as i128); o.push(lo as i128); o.push(hi.map(|h| h as i128).unwrap_or(-1)); }
+                9 => run_script!(@clone $clone, it, o, val),
                 c => run_script!(@back $back, it, o, val, a, c),
             }
         }
         fmt_obs(0, &o)
     }};
+    (@clone true, $it:ident, $o:ident, $val:ident) => {{
+        let mut c = $it.clone();
+        match c.next() { Some(s) => { $o.push(1); $o.push($val(s)); } None => $o.push(0) }
+        $o.push(c.len() as i128);
+    }};
+    (@clone false, $it:ident, $o:ident, $val:ident) => {
+        panic!("harness: ChannelsMut is not Clone")
+    };
     (@back true, $it:ident, $o:ident, $val:ident, $a:ident, $c:ident) => {
         match $c {
             7 => match $it.next_back() { Some(s) => { $o.push(1); $o.push($val(s)); } None => $o.push(0) },
@@ -137,6 +155,12 @@ where S: Sample + Cd, S::Signed: Cd, S::Float: Cd {
         "ssig" => catch(|| fmt_obs(0, &[Sample::to_signed_sample(S::mk(a[0])).val()])),
         "sflt" => catch(|| fmt_obs(0, &[Sample::to_float_sample(S::mk(a[0])).val()])),
         "seq" => catch(|| fmt_obs(0, &[<S as Sample>::EQUILIBRIUM.val()])),
+        "ssigf" => catch(|| fmt_obs(0, &[<S::Signed as Sample>::from_sample(S::mk(a[0])).val()])),
+        "sfltf" => catch(|| fmt_obs(0, &[<S::Float as Sample>::from_sample(S::mk(a[0])).val()])),
+        "sid" => catch(|| {
+            let (x, y) = (<S as Sample>::IDENTITY.val(), <S::Float as FloatSample>::IDENTITY.val());
+            if x == y { fmt_obs(0, &[x]) } else { fmt_obs(7, &[x, y]) }
+        }),
         _ => return None,
     }))
 }
@@ -190,9 +214,9 @@ where S: Sample + Cd, S::Signed: Cd, S::Float: Cd {
             "iter" => {
                 let mut fr: [S; N] = arr(&l[1]);
                 match l[0][0] {
-                    0 => run_script!(Frame::channels(fr), &l[2], |s: S| s.val(), false),
-                    1 => run_script!(Frame::channels_ref(&fr), &l[2], |s: &S| s.val(), true),
-                    _ => run_script!(Frame::channels_mut(&mut fr), &l[2], |s: &mut S| s.val(), true),
+                    0 => run_script!(Frame::channels(fr), &l[2], |s: S| s.val(), false, true),
+                    1 => run_script!(Frame::channels_ref(&fr), &l[2], |s: &S| s.val(), true, true),
+                    _ => run_script!(Frame::channels_mut(&mut fr), &l[2], |s: &mut S| s.val(), true, false),
                 }
             }
             "channel" => {
@@ -206,6 +230,32 @@ where S: Sample + Cd, S::Signed: Cd, S::Float: Cd {
             "tosigned" => { let r: [S::Signed; N] = Frame::to_signed_frame(arr::<S, N>(&l[0])); fmt_obs(0, &vals(&r)) }
             "tofloat" => { let r: [S::Float; N] = Frame::to_float_frame(arr::<S, N>(&l[0])); fmt_obs(0, &vals(&r)) }
             "equil" => fmt_obs(0, &vals(&<[S; N] as Frame>::EQUILIBRIUM)),
+            "nch" => fmt_obs(0, &[<[S; N] as Frame>::CHANNELS as i128]),
+            "chmut" => {
+                let mut fr: [S; N] = arr(&l[0]);
+                let flag = match Frame::channel_mut(&mut fr, l[1][0] as usize) { Some(r) => { *r = S::mk(l[2][0]); 1 } None => 0 };
+                let mut o = vec![flag]; o.extend(vals(&fr)); fmt_obs(0, &o)
+            }
+            "chun" => {
+                let fr: [S; N] = arr(&l[0]);
+                let i = l[1][0] as usize;
+                assert!(i < N, "harness: channel_unchecked is only called inside the bounds");
+                fmt_obs(0, &[unsafe { *Frame::channel_unchecked(&fr, i) }.val()])
+            }
+            "chunmut" => {
+                let mut fr: [S; N] = arr(&l[0]);
+                let i = l[1][0] as usize;
+                assert!(i < N, "harness: channel_unchecked_mut is only called inside the bounds");
+                unsafe { *Frame::channel_unchecked_mut(&mut fr, i) = S::mk(l[2][0]); }
+                fmt_obs(0, &vals(&fr))
+            }
+            "chw" => {
+                let mut fr: [S; N] = arr(&l[0]);
+                let news: Vec<S> = mkv(&l[1]);
+                if l[2][0] == 0 { for (r, v) in Frame::channels_mut(&mut fr).zip(news) { *r = v; } }
+                else { for (r, v) in Frame::channels_mut(&mut fr).rev().zip(news) { *r = v; } }
+                fmt_obs(0, &vals(&fr))
+            }
             other => panic!("unknown op {}", other),
         }))
     }).collect()
@@ -276,9 +326,9 @@ macro_rules! bare_runner {
                     "iter" => {
                         let mut s0 = one(&l[1]);
                         match l[0][0] {
-                            0 => run_script!(Frame::channels(s0), &l[2], |s: S| s.val(), false),
-                            1 => run_script!(Frame::channels_ref(&s0), &l[2], |s: &S| s.val(), true),
-                            _ => run_script!(Frame::channels_mut(&mut s0), &l[2], |s: &mut S| s.val(), true),
+                            0 => run_script!(Frame::channels(s0), &l[2], |s: S| s.val(), false, true),
+                            1 => run_script!(Frame::channels_ref(&s0), &l[2], |s: &S| s.val(), true, true),
+                            _ => run_script!(Frame::channels_mut(&mut s0), &l[2], |s: &mut S| s.val(), true, false),
                         }
                     }
                     "channel" => {
@@ -293,6 +343,30 @@ macro_rules! bare_runner {
                     "tosigned" => { let r: Sg = Frame::to_signed_frame(one(&l[0])); fmt_obs(0, &[r.val()]) }
                     "tofloat" => { let r: Fl = Frame::to_float_frame(one(&l[0])); fmt_obs(0, &[r.val()]) }
                     "equil" => fmt_obs(0, &[<S as Frame>::EQUILIBRIUM.val()]),
+                    "nch" => fmt_obs(0, &[<S as Frame>::CHANNELS as i128]),
+                    "chmut" => {
+                        let mut s0 = one(&l[0]);
+                        let flag = match Frame::channel_mut(&mut s0, l[1][0] as usize) { Some(r) => { *r = S::mk(l[2][0]); 1 } None => 0 };
+                        fmt_obs(0, &[flag, s0.val()])
+                    }
+                    "chun" => {
+                        let s0 = one(&l[0]);
+                        assert!(l[1][0] == 0, "harness: channel_unchecked is only called inside the bounds");
+                        fmt_obs(0, &[unsafe { *Frame::channel_unchecked(&s0, 0) }.val()])
+                    }
+                    "chunmut" => {
+                        let mut s0 = one(&l[0]);
+                        assert!(l[1][0] == 0, "harness: channel_unchecked_mut is only called inside the bounds");
+                        unsafe { *Frame::channel_unchecked_mut(&mut s0, 0) = S::mk(l[2][0]); }
+                        fmt_obs(0, &[s0.val()])
+                    }
+                    "chw" => {
+                        let mut s0 = one(&l[0]);
+                        let news: Vec<S> = mkv(&l[1]);
+                        if l[2][0] == 0 { for (r, v) in Frame::channels_mut(&mut s0).zip(news) { *r = v; } }
+                        else { for (r, v) in Frame::channels_mut(&mut s0).rev().zip(news) { *r = v; } }
+                        fmt_obs(0, &[s0.val()])
+                    }
                     other => panic!("unknown op {}", other),
                 }))
             }).collect()
